@@ -59,6 +59,15 @@ pub struct VCase {
     pub ops: Vec<VOp>,
 }
 
+/// kind of virtual key v: 0 key, 1 layer-while-held, 2 one-key macro, 3 an on-idle action that taps the
+/// virtual key before it (only for v >= 1 and when that one is not of kind 3 itself; else a key)
+fn akind(actions: &[u8], v: usize) -> u8 {
+    match actions[v] % 4 {
+        3 if v >= 1 && actions[v - 1] % 4 != 3 => 3,
+        3 => 0,
+        k => k,
+    }
+}
 const VK_KEY: [&str; 3] = ["kp1", "kp2", "kp3"];
 const VK_MACRO_KEY: [&str; 3] = ["kp4", "kp5", "kp6"];
 const SEQ_KEY: [&str; 3] = ["f1", "f2", "f3"];
@@ -132,10 +141,12 @@ fn build(c: &VCase) -> Layout18 {
     l1.push_str(" _ _ _ _)");
     let mut vks = String::from("(defvirtualkeys");
     for (i, a) in c.actions.iter().enumerate() {
-        vks.push_str(&match a % 3 {
+        let _ = a;
+        vks.push_str(&match akind(&c.actions, i) {
             0 => format!(" vk{i} {}", VK_KEY[i]),
             1 => format!(" vk{i} (layer-while-held l1)"),
-            _ => format!(" vk{i} (macro {})", VK_MACRO_KEY[i]),
+            2 => format!(" vk{i} (macro {})", VK_MACRO_KEY[i]),
+            _ => format!(" vk{i} (on-idle {} tap-vkey vk{})", c.t_idle, i - 1),
         });
     }
     vks.push(')');
@@ -380,7 +391,7 @@ fn model(c: &VCase, lay: &Layout18, ins: &[(u64, In)], idle: &[bool], end: u64, 
                     cnt = 0;
                     queue.push_back(Q::Phys(*code, *p));
                 }
-                In::Direct(vk, kind) => apply(*kind, *vk, &pressed, c.actions[*vk as usize] % 3 == 2, &mut queue),
+                In::Direct(vk, kind) => apply(*kind, *vk, &pressed, akind(&c.actions, *vk as usize) == 2, &mut queue),
             }
             next += 1;
         }
@@ -413,7 +424,7 @@ fn model(c: &VCase, lay: &Layout18, ins: &[(u64, In)], idle: &[bool], end: u64, 
                 }
                 Q::Vk(vk, true) => {
                     let v = vk as usize;
-                    match c.actions[v] % 3 {
+                    match akind(&c.actions, v) {
                         0 => {
                             if !pressed[v] {
                                 ex.keys.push((k, true, code_of(VK_KEY[v])));
@@ -421,6 +432,12 @@ fn model(c: &VCase, lay: &Layout18, ins: &[(u64, In)], idle: &[bool], end: u64, 
                             pressed[v] = true;
                         }
                         1 => pressed[v] = true,
+                        3 => {
+                            // its action arms an on-idle that taps the virtual key before it
+                            pressed[v] = true;
+                            customs.push((vk - 1, What::OnIdle(Kind::Tap)));
+                            ex.classes.push("on-idle-armed-by-a-virtual-key");
+                        }
                         _ => {
                             // the macro runs: its key goes down in the next tick, up in the one after
                             if macro_out.iter().any(|(t, _, key)| *key == code_of(VK_MACRO_KEY[v]) && *t + 3 > k + 1) {
@@ -434,10 +451,10 @@ fn model(c: &VCase, lay: &Layout18, ins: &[(u64, In)], idle: &[bool], end: u64, 
                 }
                 Q::Vk(vk, false) => {
                     let v = vk as usize;
-                    if c.actions[v] % 3 == 0 && pressed[v] {
+                    if akind(&c.actions, v) == 0 && pressed[v] {
                         ex.keys.push((k, false, code_of(VK_KEY[v])));
                     }
-                    if c.actions[v] % 3 != 2 {
+                    if akind(&c.actions, v) != 2 {
                         pressed[v] = false;
                     }
                 }
@@ -452,7 +469,7 @@ fn model(c: &VCase, lay: &Layout18, ins: &[(u64, In)], idle: &[bool], end: u64, 
         macro_due.retain(|(tk, _, _)| *tk != k);
         for (vk, w) in customs {
             let v = vk as usize;
-            let is_macro = c.actions[v] % 3 == 2;
+            let is_macro = akind(&c.actions, v) == 2;
             match w {
                 What::Op(kind, _) => apply(kind, vk, &pressed, is_macro, &mut queue),
                 What::Hold | What::HoldLong => {
@@ -498,7 +515,7 @@ fn model(c: &VCase, lay: &Layout18, ins: &[(u64, In)], idle: &[bool], end: u64, 
                 ex.ambiguous = true;
             }
             for (vk, kind) in waiting.iter() {
-                apply(*kind, *vk, &pressed, c.actions[*vk as usize] % 3 == 2, &mut queue);
+                apply(*kind, *vk, &pressed, akind(&c.actions, *vk as usize) == 2, &mut queue);
             }
             waiting.clear();
             ex.classes.push("on-idle-fired");
@@ -521,7 +538,7 @@ fn model(c: &VCase, lay: &Layout18, ins: &[(u64, In)], idle: &[bool], end: u64, 
                 }
             }
         }
-        ex.layer1.push((0..n).any(|v| c.actions[v] % 3 == 1 && pressed[v]));
+        ex.layer1.push((0..n).any(|v| akind(&c.actions, v) == 1 && pressed[v]));
     }
     if !waiting.is_empty() {
         ex.classes.push("on-idle-still-waiting-at-end");
@@ -644,11 +661,12 @@ at tick {} (and {t2} under the other tie rule) kanata reports itself idle althou
             What::OnIdle(_) => "on-idle",
         });
     }
-    for act in &c.actions {
-        v.classes.push(match act % 3 {
+    for (vi, _) in c.actions.iter().enumerate() {
+        v.classes.push(match akind(&c.actions, vi) {
             0 => "action:key",
             1 => "action:layer",
-            _ => "action:macro",
+            2 => "action:macro",
+            _ => "action:on-idle-tapping-another-virtual-key",
         });
     }
     v.classes.sort();
@@ -665,7 +683,7 @@ impl TypedProp for C18 {
     fn info(&self) -> PropInfo {
         PropInfo {
             level: "exploration",
-            rule: "configs: 1-3 virtual keys, each a key, (layer-while-held l1) or a one-key macro; one physical key per distinct operation: (on-press|on-release OP vk), (macro (on-press OP vk)), (hold-for-duration D vk), (hold-for-duration 3D+7 vk), (on-idle T OP vk), OP in press/release/tap/toggle (the second virtual key through the older spellings on-press-fakekey / on-release-fakekey / on-idle-fakekey and their arrow aliases); a sequence leader and one defseq per virtual key; rapid-event-delay 0. Histories: 1-13 operations >= 5 ms apart (>= 9 ms before a typed sequence), gaps drawn from small values, D-1/D/D+1, T-1/T/T+1 and long pauses, each operation through one of five sources (on-press, on-release, macro item, direct handle_fakekey_action call as the TCP server makes it, completed sequence = tap); run through the processing-loop emulation (can_block_update_idle_waiting every ms). Oracle: a reference model - the event queue handled one event per tick, a pressed flag per virtual key, press/release/tap/toggle on that flag (toggle decided when the operation is issued), hold-for-duration with a countdown of D ticks from its most recent activation (re-armed while it runs), on-idle firing once when kanata's own is_idle has held for T consecutive loop iterations since the last input or activation - predicts every OS transition of the virtual keys' output keys to the tick, and the layer-1 flag after every tick; they must be equal; and kanata must not report itself idle while a hold-for-duration countdown has 2 ms or more to run. Non-trivial: a toggle, a re-armed hold-for-duration or a fired on-idle occurs. Distinct: hash of the case.".into(),
+            rule: "configs: 1-3 virtual keys, each a key, (layer-while-held l1), a one-key macro, or (one in nine) an on-idle action that taps the virtual key before it (an on-idle armed without any input); one physical key per distinct operation: (on-press|on-release OP vk), (macro (on-press OP vk)), (hold-for-duration D vk), (hold-for-duration 3D+7 vk), (on-idle T OP vk), OP in press/release/tap/toggle (the second virtual key through the older spellings on-press-fakekey / on-release-fakekey / on-idle-fakekey and their arrow aliases); a sequence leader and one defseq per virtual key; rapid-event-delay 0. Histories: 1-13 operations >= 5 ms apart (>= 9 ms before a typed sequence), gaps drawn from small values, D-1/D/D+1, T-1/T/T+1 and long pauses, each operation through one of five sources (on-press, on-release, macro item, direct handle_fakekey_action call as the TCP server makes it, completed sequence = tap); run through the processing-loop emulation (can_block_update_idle_waiting every ms). Oracle: a reference model - the event queue handled one event per tick, a pressed flag per virtual key, press/release/tap/toggle on that flag (toggle decided when the operation is issued), hold-for-duration with a countdown of D ticks from its most recent activation (re-armed while it runs), on-idle firing once when kanata's own is_idle has held for T consecutive loop iterations since the last input or activation - predicts every OS transition of the virtual keys' output keys to the tick, and the layer-1 flag after every tick; they must be equal; and kanata must not report itself idle while a hold-for-duration countdown has 2 ms or more to run. Non-trivial: a toggle, a re-armed hold-for-duration or a fired on-idle occurs. Distinct: hash of the case.".into(),
             assumptions: vec![
                 "a macro virtual key has no held state: each press event runs it once, release does nothing, toggle always presses".into(),
                 "kanata's is_idle() (the subject of C07) is taken as the definition of 'idle' for on-idle".into(),
@@ -682,7 +700,7 @@ impl TypedProp for C18 {
             },
             exhaustive: false,
             distinct_by_construction: false,
-            required_classes: vec!["toggle", "hold-rearmed", "hold-expired", "on-idle-fired", "src:on-press", "src:on-release", "src:macro", "src:direct", "src:sequence", "action:key", "action:layer", "action:macro"],
+            required_classes: vec!["on-idle-armed-by-a-virtual-key", "toggle", "hold-rearmed", "hold-expired", "on-idle-fired", "src:on-press", "src:on-release", "src:macro", "src:direct", "src:sequence", "action:key", "action:layer", "action:macro"],
             hang_secs: 60,
         }
     }
@@ -698,7 +716,7 @@ impl TypedProp for C18 {
             2 => kind.prop_map(What::OnIdle),
         ];
         (
-            prop::collection::vec(0u8..3, 1..4),
+            prop::collection::vec(prop_oneof![6 => 0u8..3, 1 => Just(3u8)], 1..4),
             prop::sample::select(vec![8u16, 20]),
             prop::sample::select(vec![15u16, 40]),
             prop::collection::vec((0u16..12, 0u8..3, what), 1..14),
